@@ -57,7 +57,7 @@ def run_replay_file(prop: str, path: str, repo: str) -> typing.Tuple[str, typing
 
 def check(prop: str, tier: str, seed: int, nshards: int = 16, scale: float = 1.0, only_part: str = "") -> int:
     t0 = time.time()
-    deps.ensure()
+    deps.ensure(optional=(tier != "quick"))  # the thorough tier runs atheris campaigns
     repo = repo_path()
     mod = importlib.import_module("vf.props.%s" % prop.lower())
     known_all = findings.load()
